@@ -1312,8 +1312,29 @@ impl<'a> Gen<'a> {
               format!("async function g{}(x) {{ try {{ await {}import({} + x); }} catch {{}} }}", c, p, raw)
             }
             22 => {
-              self.expected.push((3, 0, String::new()));
-              format!("const u{} = (x) => {}import(x);", c, p)
+              // a third of these carry another dynamic import / require inside the argument: both are
+              // dependencies, the inner one a literal, the outer one an expression or a template
+              match self.rng.below(9) {
+                0 => {
+                  self.expected.push((1, 0, cooked));
+                  self.expected.push((3, 0, String::new()));
+                  format!("const u{} = async (x) => {}import((await import({})).entry);", c, p, raw)
+                }
+                1 => {
+                  self.expected.push((1, 3, cooked));
+                  self.expected.push((3, 3, String::new()));
+                  format!("const u{} = (x) => {}require(require({}).join(x, \"y\"));", c, p, raw)
+                }
+                2 => {
+                  self.expected.push((1, 0, cooked));
+                  self.expected.push((2, 0, format!("./d{}/\u{1}.js", c)));
+                  format!("const u{} = async (x) => {}import(`./d{}/${{(await import({})).name}}.js`);", c, p, c, raw)
+                }
+                _ => {
+                  self.expected.push((3, 0, String::new()));
+                  format!("const u{} = (x) => {}import(x);", c, p)
+                }
+              }
             }
             23 => {
               self.expected.push((1, 3, cooked));
